@@ -81,10 +81,14 @@ def worker_env(pid, boundscheck, thash):
 class Worker:
     """One worker subprocess speaking a line protocol over pipes."""
 
-    def __init__(self, pid, env, errpath):
+    def __init__(self, pid, env, errpath, pyopt=False):
         self.err = open(errpath, "ab")
+        self.pyopt = bool(pyopt)
+        # pyopt: the interpreter mode `python -O` (assert statements compiled away), for the
+        # cases that ask for it - a validation written as an assert vanishes there
         self.proc = subprocess.Popen(
-            [PY, "-u", "-X", "faulthandler", "-m", "vf.worker", pid],
+            [PY, "-u"] + (["-O"] if pyopt else []) + ["-X", "faulthandler", "-m", "vf.worker",
+                                                      pid],
             stdin=subprocess.PIPE, stdout=subprocess.PIPE, stderr=self.err,
             env=env, cwd=ROOT)
         self.buf = b""
@@ -172,8 +176,8 @@ def run_pool(pid, cases, env, workdir, nworkers, default_timeout, startup=240.0,
         errpath = os.path.join(workdir, "worker-%d.err" % k)
         w = None
 
-        def fresh_worker():
-            ww = Worker(pid, env, errpath)
+        def fresh_worker(pyopt=False):
+            ww = Worker(pid, env, errpath, pyopt)
             msg = ww.recv(startup)
             if not (isinstance(msg, dict) and msg.get("ready")):
                 ww.kill()
@@ -186,10 +190,10 @@ def run_pool(pid, cases, env, workdir, nworkers, default_timeout, startup=240.0,
             except queue.Empty:
                 break
             for case in chunk:
-                if w is None or case.get("fresh"):
+                if w is None or case.get("fresh") or w.pyopt != bool(case.get("pyopt")):
                     if w is not None:
                         w.close()
-                    w, bad = fresh_worker()
+                    w, bad = fresh_worker(bool(case.get("pyopt")))
                     if w is None:
                         with lock:
                             results.append({
